@@ -148,7 +148,8 @@ def run_scenario(case, observer=None):
     ps = net.build(spec)
     faults = case["faults"]
     ops, impl, info = [], [], []
-    state = {"view": None, "k": 0}
+    state = {"view": None, "k": 0, "devfail": False}
+    from relsad.Time import Time
 
     def cb(ps, prev_time, curr_time):
         ps_ = ps
@@ -157,6 +158,15 @@ def run_scenario(case, observer=None):
         state["k"] = k
         for (name, rep) in faults.get(str(k), []):
             l = ps_.get_comp(name)
+            kindname = type(l).__name__
+            if kindname in ("Sensor", "IntelligentSwitch"):
+                # a device of the automatic control fails (state FAILED, as a failure draw would set it); `rep` is its manual
+                # repair time.  Not part of the switching model: such scenarios are oracle-only (state["devfail"]).
+                state["devfail"] = True
+                if l.state.name == "OK":
+                    l.manual_repair_time = Time(F(rep))
+                    l.fail()
+                continue
             if name.startswith(("IL", "IN")):       # communication line / node: not part of the switching model, no model op
                 if not l.failed:
                     l.repair_time_dist = net.FixedDist(F(rep))
@@ -225,6 +235,8 @@ def run_scenario(case, observer=None):
     times = [dt * k * 3600 / c17.FACT[unit] for k in range(1, n_inc + 1)]       # the same instants, written in the reporting unit
     with c17._Exact():
         sim.run_sequence(TimeStamp(), times, c17.U(unit), cb, case.get("save_flag", False))
+    if state["devfail"]:
+        ops, impl = [], []          # sensors / intelligent switches failed by themselves: outside the loop model, oracle only
     return v, ops, impl, info
 
 
